@@ -130,6 +130,17 @@ void draw_run_config(Rng &fl, const SimKnobs &k, RunConfig &rc)
     if (k.allow_spawn_fail && e5)
       rc.p_spawn_fail = v5;
   }
+  // call-boundary preemption is a scheduling dimension, not a fault: also in fault-free strata
+  static const int periods[]   = {1, 3, 7, 29};
+  static const double pcalls[] = {0.01, 0.05, 0.2};
+  bool e6   = fl.chance(0.35);
+  int per   = fl.pick(periods);
+  double pc = fl.pick(pcalls);
+  if (k.allow_call_points && e6)
+  {
+    rc.call_period = per;
+    rc.p_call      = pc;
+  }
 }
 
 }  // namespace vsim
@@ -161,6 +172,8 @@ static json rc_to_json(const RunConfig &rc)
   j["max_stalls"]     = rc.max_stalls;
   j["p_sysjump"]      = rc.p_sysjump;
   j["p_spawn_fail"]   = rc.p_spawn_fail;
+  j["call_period"]    = rc.call_period;
+  j["p_call"]         = rc.p_call;
   return j;
 }
 
@@ -187,6 +200,8 @@ static void rc_from_json(const json &j, RunConfig &rc)
   rc.max_stalls     = j.value("max_stalls", 2);
   rc.p_sysjump      = j.value("p_sysjump", 0.0);
   rc.p_spawn_fail   = j.value("p_spawn_fail", 0.0);
+  rc.call_period    = j.value("call_period", 0);
+  rc.p_call         = j.value("p_call", 0.0);
 }
 
 static const char *strategy_name(int s)
@@ -696,6 +711,13 @@ struct Minimiser
       c.rc.cost_ns = 0;
       try_candidate(c, dec);
     }
+    if (best.rc.call_period != 0 && budget_left())
+    {
+      Case c           = best;
+      c.rc.call_period = 0;
+      c.rc.p_call      = 0;
+      try_candidate(c, dec);
+    }
   }
   void pass_knobs()
   {
@@ -794,7 +816,8 @@ static void emit_candidate(const Case &c,
 struct WStats
 {
   std::chrono::steady_clock::time_point t0;
-  std::unordered_set<uint64_t> hashes, hashes_nt, sigs;
+  std::unordered_set<uint64_t> hashes, hashes_nt, sigs, callsites;
+  uint64_t calls = 0, call_runs = 0;
   std::map<std::string, uint64_t> strat, strata, viol, probes_total;
   uint64_t fired[D_NDRAWS] = {};
   uint64_t runs = 0, points = 0, switches = 0, timer_jumps = 0, drained = 0, nontrivial = 0;
@@ -828,6 +851,7 @@ static void print_summary(bool partial = false)
     dump(w.hashes, "hashes");
     dump(w.hashes_nt, "hashesnt");
     dump(w.sigs, "sigs");
+    dump(w.callsites, "callsites");
   }
   json j;
   j["worker"]      = g_widx;
@@ -837,12 +861,14 @@ static void print_summary(bool partial = false)
   j["max_points"]  = w.max_points;
   j["switches"]    = w.switches;
   j["timer_jumps"] = w.timer_jumps;
+  j["calls"]       = w.calls;
+  j["call_runs"]   = w.call_runs;
   j["sim_time_s"]  = (double)(w.sim_ns / 1e9L);
   j["drained"]     = w.drained;
   j["nontrivial"]  = w.nontrivial;
   j["wall_s"]      = wall;
   static const char *draw_names[] = {"sched",      "cas_spurious",  "cv_spurious",      "notify_one",
-                                     "task_stall", "sysclock_jump", "thread_spawn_fail"};
+                                     "task_stall", "sysclock_jump", "thread_spawn_fail", "call_preempt"};
   json fj;
   for (int i = 1; i < D_NDRAWS; ++i)
     if (i != D_NOTIFY_ONE)
@@ -930,6 +956,10 @@ static int worker_main(const std::string &prop,
     ws.points += o.rr.points;
     ws.switches += o.rr.switches;
     ws.timer_jumps += o.rr.timer_jumps;
+    ws.calls += o.rr.calls;
+    ws.call_runs += c.rc.call_period > 0;
+    for (uint64_t cs : o.rr.call_sites)
+      ws.callsites.insert(cs);
     ws.sim_ns += (long double)(o.rr.sim_time_ns - 1000000000ll);
     ws.drained += o.rr.drained;
     ws.max_points = std::max(ws.max_points, o.rr.points);
@@ -1024,6 +1054,57 @@ int main(int argc, char **argv)
     printf("%s\n", j.dump().c_str());
     return 0;
   }
+
+  // Warm-up, identical in every process and every mode: a fixed set of generated cases is run
+  // with call-boundary preemption off and the results are thrown away. What the code under
+  // test does once per process (lazy singletons, the one-time at-fork registration of the id
+  // generator, ...) has then happened before any run that counts, so the number of function
+  // boundaries a run crosses - which places its call-boundary preemptions - does not depend on
+  // what the process ran before: a worker's 10 000th run and its replay in a fresh process agree.
+  // (First in a forked child: on a broken tree a warm-up case may deadlock or crash, and the
+  // process must survive that to go on and report it from a run that counts.)
+  auto warmup_survives = []() {
+    fflush(stdout);
+    fflush(stderr);
+    pid_t pid = fork();
+    if (pid != 0)
+    {
+      int st = 0;
+      if (pid > 0)
+        waitpid(pid, &st, 0);
+      return pid > 0 && WIFEXITED(st) && WEXITSTATUS(st) == 0;
+    }
+    alarm(60);
+    set_fatal_handler([](const char *, const char *) { _exit(9); });
+    return true;  // the child goes on to run the warm-up itself and then exits
+  };
+  bool in_probe_child = false;
+  {
+    pid_t before = getpid();
+    bool ok      = warmup_survives();
+    in_probe_child = getpid() != before;
+    if (!ok)
+      goto warm_done;
+  }
+  {
+    int saved_scale   = vsim::g_tier_scale;
+    vsim::g_tier_scale = 1;
+    for (auto pp = g_engine.props; *pp; ++pp)
+      for (uint64_t i = 0; i < 24; ++i)
+      {
+        Case wc;
+        make_case(*pp, 0x77a7, i, wc);
+        wc.rc.call_period = 0;
+        wc.rc.p_call      = 0;
+        vsim::reset_probes();
+        (void)run_inproc(wc);
+      }
+    vsim::reset_probes();
+    vsim::g_tier_scale = saved_scale;
+    if (in_probe_child)
+      _exit(0);
+  }
+warm_done:
 
   if (has_flag(argc, argv, "--worker"))
   {
